@@ -92,9 +92,13 @@ NoGroup == [ mls      |-> "none",    \* "none" | "ok" | "evicted"
 
 SecretAt(gs, n) == LET hits == {i \in DOMAIN gs.secrets : gs.secrets[i].epoch = n}
                    IN  IF hits = {} THEN <<"absent">> ELSE <<"chain", gs.secrets[CHOOSE i \in hits : TRUE].chain>>
+\* exporter_secret(): the secret of the current epoch is derived from the MLS group; a stored one that stems from another
+\* branch held earlier under the same epoch number is replaced (before the fix -- deviation StaleSecretTrusted, which TLC
+\* found as a violation of SecretsMatch -- a stored entry was trusted)
 PutSecret(gs, n, ch) == IF SecretAt(gs, n)[1] = "absent"
                         THEN [gs EXCEPT !.secrets = Append(@, [epoch |-> n, chain |-> ch])]
-                        ELSE gs
+                        ELSE IF SecretAt(gs, n)[2] = ch \/ "StaleSecretTrusted" \in Dev THEN gs
+                        ELSE [gs EXCEPT !.secrets = Append(SelectSeq(@, LAMBDA x : x.epoch # n), [epoch |-> n, chain |-> ch])]
 
 \* what a snapshot copies (everything group-scoped except the snapshots themselves)
 SnapOf(gs) == [mls |-> gs.mls, chain |-> gs.chain, pend |-> gs.pend, props |-> gs.props,
@@ -672,13 +676,20 @@ AcceptWelcome(c, w) ==
     /\ LET g == wl[w].g IN
        /\ cl' = [cl EXCEPT ![c][g] = [@ EXCEPT !.mls = "ok", !.chain = wl[w].chain, !.pend = NoE, !.props = {},
                                               !.past = <<>>, !.consumed = {}, !.sentH = 0, !.sentA = 0,
+                                              \* rollback snapshots of an earlier membership are released (before the fix --
+                                              \* deviation RejoinKeepsSnapshots -- they stayed and a replayed old commit rolled
+                                              \* the returning member back into its old branch)
+                                              !.stored = IF "RejoinKeepsSnapshots" \in Dev THEN @ ELSE {},
                                               \* state Active, rotation obligation, and the record re-synced from the joined group
                                               !.rec = IF @.st = "none" THEN @
                                                       ELSE [@ EXCEPT !.st = "active", !.su = TRUE,
                                                                      !.epoch = EpochOf(g, wl[w].chain), !.data = GS(g, wl[w].chain)]]]
        /\ welc' = [welc EXCEPT ![c][w].st = "accepted"]
        /\ hist' = [hist EXCEPT !.wreset = IF cl[c][g].mls # "none" THEN @ \cup {<<c, g>>} ELSE @]
-    /\ UNCHANGED <<ginfo, ev, proc, msgs, snapq, hyd, withdrawn, wl, pwelc>>
+       /\ IF "RejoinKeepsSnapshots" \in Dev THEN UNCHANGED <<snapq, hyd>>
+          ELSE /\ snapq' = [snapq EXCEPT ![c][g] = <<>>]
+               /\ hyd' = [hyd EXCEPT ![c] = @ \cup {g}]
+    /\ UNCHANGED <<ginfo, ev, proc, msgs, withdrawn, wl, pwelc>>
 
 DeclineWelcome(c, w) ==
     /\ w \in DOMAIN wl /\ WelcOf(c, w) # "none" /\ CanStage(c, w)
@@ -935,6 +946,10 @@ C02_Ex(pr) ==
              \/ (pr /\ PrintT("VIOLATION-DETAIL " \o ToString(<<"C02 winning-branch message not stored valid", c, e, IF k \in DOMAIN msgs[c] THEN msgs[c][k].state ELSE "absent">>)) /\ FALSE)
        /\ (~OnWinner(g, ev[e].parent) /\ ConvergedAt(c, g) /\ k \in DOMAIN msgs[c])
           => \/ msgs[c][k].state \notin {"processed", "created"}
+             \* finding RejoinKeepsOldBranchMessages: a member that comes back through a welcome while it still held the group
+             \* on a branch of its own keeps the messages of that abandoned branch marked valid (nothing invalidates them)
+             \/ /\ "RejoinKeepsOldBranchMessages" \in Dev /\ <<c, g>> \in hist.wreset
+                /\ pr => PrintT(<<"KNOWN-FINDING", "C02", "RejoinKeepsOldBranchMessages", c, e>>)
              \/ (pr /\ PrintT("VIOLATION-DETAIL " \o ToString(<<"C02 losing-branch message left valid", c, e, msgs[c][k].state>>)) /\ FALSE)
 C02_Excused == C02_Ex(TRUE)
 C02_ExcusedQuiet == C02_Ex(FALSE)
@@ -1059,7 +1074,9 @@ C20_Bounded == \A c \in Clients, g \in Groups :
 \* --- internal sanity: a stored secret for an epoch belongs to the chain the client is/was on ---
 SecretsMatch == \A c \in Clients, g \in Groups :
                   cl[c][g].mls = "ok" =>
-                    LET s == SecretAt(cl[c][g], EpochOf(g, cl[c][g].chain)) IN
-                    s[1] = "absent" \/ s[2] = cl[c][g].chain
+                    \* the secret exporter_secret() would hand out NOW for the current epoch is the one of the chain the client is on
+                    LET n == EpochOf(g, cl[c][g].chain)
+                        s == SecretAt(PutSecret(cl[c][g], n, cl[c][g].chain), n) IN
+                    s = <<"chain", cl[c][g].chain>>
 
 =============================================================================
